@@ -529,6 +529,30 @@ func cmdCheck(args []string) int {
 				} else {
 					confirmed = ro.Status == "fail" || ro.Status == "panic"
 				}
+				// the first counterexample of the label did not reproduce: where the
+				// engine's model is allowed to differ from the native run in something the
+				// label depends on (the capacity append() gives a grown slice, say), another
+				// counterexample of the same label may be the one that is real — try up to
+				// six that differ in some harness choice
+				for ai := 0; !confirmed && !c.panic && ai < len(rr.AltViolations[c.label]) && ai < 6; ai++ {
+					alt := rr.AltViolations[c.label][ai]
+					ra := native.run(run.Pkg, alt)
+					if ra.Status == "fail" || ra.Status == "panic" {
+						hit := ra.Status == "panic"
+						for _, l := range ra.Labels {
+							if l == c.label {
+								hit = true
+							}
+						}
+						if hit {
+							confirmed = true
+							c.vec = alt
+							data, _ := json.MarshalIndent(c.vec, "", " ")
+							os.WriteFile(path, data, 0o644)
+							detail = fmt.Sprintf("%s %s (counterexample %d of the label)", ra.Status, strings.Join(ra.Labels, ","), ai+2)
+						}
+					}
+				}
 				if !confirmed {
 					detail += " | " + clipS(ro.Output, 300)
 				}
